@@ -919,45 +919,6 @@ Proof.
       * left. unfold rkey in K; simpl in K. inversion K; subst. simpl. reflexivity.
 Qed.
 
-(* the reverse index and the pool describe the same ownership *)
-Record RS (p : pool) (ri : rindex) : Prop := {
-  rs_sound : forall m, In m (r_byip ri) -> In (m_blk m) (blocks_of p (m_sub m));
-  rs_complete : forall k b, In b (blocks_of p k) -> exists m, In m (r_byip ri) /\ m_sub m = k /\ m_blk m = b }.
-
-Definition CInv (c : cfg) (st : list (N * N * bool * nat)) (s : comp) : Prop :=
-  Inv c st (cp_pool s) /\ RI (cp_rev s) /\ RS (cp_pool s) (cp_rev s).
-
-Lemma rs_ext p p' ri : (forall k, blocks_of p' k = blocks_of p k) -> RS p ri -> RS p' ri.
-Proof.
-  intros E [S C]. constructor.
-  - intros m Hm. rewrite E. auto.
-  - intros k b Hb. rewrite E in Hb. auto.
-Qed.
-
-Lemma commit_inv c st p p' ri k b : wf c -> Inv c st p' -> RI ri -> RS p ri ->
-  (forall k' b', In b' (blocks_of p k') -> In b' (blocks_of p' k')) ->
-  (forall k' b', In b' (blocks_of p' k') -> In b' (blocks_of p k') \/ (k' = k /\ b' = b)) ->
-  In b (blocks_of p' k) ->
-  RI (rev_add repaired ri k b) /\ RS p' (rev_add repaired ri k b).
-Proof.
-  intros W I' R [S C] Hgrow Hnew Hb. destruct (rev_add_spec ri k b R) as [R' M]. split; [exact R'|].
-  constructor.
-  - intros m Hm. apply M in Hm. destruct Hm as [[Hm _]| ->]; [apply Hgrow; auto|exact Hb].
-  - intros k' b' Hb'.
-    destruct (N.eq_dec (b_ip b') (b_ip b)) as [E1|E1]; [destruct (N.eq_dec (b_start b') (b_start b)) as [E2|E2]|].
-    + assert (k' = k) by (eapply (i_excl _ _ _ I'); eauto). subst k'.
-      destruct (i_blk _ _ _ I' _ _ Hb') as (_ & _ & _ & _ & En' & _).
-      destruct (i_blk _ _ _ I' _ _ Hb) as (_ & _ & _ & _ & En & _).
-      assert (b' = b) by (apply block_eq; congruence). subst b'.
-      eexists. split; [apply M; right; reflexivity|]. split; reflexivity.
-    + destruct (Hnew _ _ Hb') as [Ho|[-> ->]]; [|congruence].
-      destruct (C _ _ Ho) as (m & Hm & Ms & Mb). exists m. split; [|auto]. apply M. left. split; [exact Hm|].
-      unfold rkey. rewrite Mb. intros K; inversion K; congruence.
-    + destruct (Hnew _ _ Hb') as [Ho|[-> ->]]; [|congruence].
-      destruct (C _ _ Ho) as (m & Hm & Ms & Mb). exists m. split; [|auto]. apply M. left. split; [exact Hm|].
-      unfold rkey. rewrite Mb. intros K; inversion K; congruence.
-Qed.
-
 Lemma rev_remove_fold bl : forall ri, RI ri ->
   let ri' := fold_left (fun ri b => rev_remove ri (b_ip b) (b_start b)) bl ri in
   RI ri' /\ forall m, In m (r_byip ri') <-> In m (r_byip ri) /\ forall b, In b bl -> rkey m <> (b_ip b, b_start b).
@@ -968,20 +929,6 @@ Proof.
     destruct (IH _ R1) as [R2 M2]. split; [exact R2|]. intros m. rewrite M2, M1. split.
     + intros [[Hm NK] H]. split; [exact Hm|]. intros b0 [<-|Hb0]; auto.
     + intros [Hm H]. split; [split; [exact Hm|apply H; auto]|]. intros b0 Hb0. apply H; auto.
-Qed.
-
-Lemma release_comp_inv c st p ri k : wf c -> Inv c st p -> RI ri -> RS p ri ->
-  let ri' := fold_left (fun ri b => rev_remove ri (b_ip b) (b_start b)) (blocks_of p k) ri in
-  RI ri' /\ RS (release c p k) ri'.
-Proof.
-  intros W I R [S C]. destruct (rev_remove_fold (blocks_of p k) ri R) as [R' M]. split; [exact R'|].
-  constructor.
-  - intros m Hm. apply M in Hm. destruct Hm as [Hm NK]. rewrite blocks_of_release.
-    destruct (N.eqb_spec (m_sub m) k) as [E|E]; [|auto].
-    exfalso. specialize (S _ Hm). rewrite E in S. apply (NK _ S). reflexivity.
-  - intros k' b' Hb'. rewrite blocks_of_release in Hb'. destruct (N.eqb_spec k' k) as [E|NE]; [contradiction|].
-    destruct (C _ _ Hb') as (m & Hm & Ms & Mb). exists m. split; [|auto]. apply M. split; [exact Hm|].
-    intros b0 Hb0 K. unfold rkey in K. rewrite Mb in K. inversion K. apply NE. eapply (i_excl _ _ _ I); eauto.
 Qed.
 
 (* shape of what the pool operations do to the block lists *)
@@ -1017,196 +964,14 @@ Proof.
     destruct (c_paired c && _); [discriminate|]. intros X; inversion X. right. eauto.
 Qed.
 
-Lemma commit_after_add c st s p' k b sid addrs' : wf c -> CInv c st s -> Inv c st p' ->
-  p' = add_block (cp_pool s) k b addrs' -> CInv c st (commit_mapping repaired s p' sid k b).
-Proof.
-  intros W (I & R & S) I' E. unfold CInv, commit_mapping; cbn [cp_pool cp_rev].
-  destruct (commit_inv c st (cp_pool s) p' (cp_rev s) k b W I' R S) as [R' S']; [| | |auto].
-  - intros k' b' H. subst p'. rewrite blocks_of_add. destruct (k' =? k) eqn:K; [apply N.eqb_eq in K; subst; apply in_or_app|]; auto.
-  - intros k' b' H. subst p'. rewrite blocks_of_add in H. destruct (N.eqb_spec k' k) as [->|]; [|auto].
-    apply in_app_or in H. destruct H as [H|[<-|[]]]; auto.
-  - subst p'. rewrite blocks_of_add, N.eqb_refl. apply in_or_app. simpl; auto.
-Qed.
-Lemma commit_same c st s k b sid : wf c -> CInv c st s -> In b (blocks_of (cp_pool s) k) ->
-  CInv c st (commit_mapping repaired s (cp_pool s) sid k b).
-Proof.
-  intros W (I & R & S) Hb. unfold CInv, commit_mapping; cbn [cp_pool cp_rev].
-  destruct (commit_inv c st (cp_pool s) (cp_pool s) (cp_rev s) k b W I R S) as [R' S']; auto.
-Qed.
-
-Lemma restore_commit_inv c st s sid mk mb p' : wf c -> wfst c st -> CInv c st s ->
-  restore_repaired c (cp_pool s) mk mb true = Some p' -> CInv c st (commit_mapping repaired s p' sid mk mb).
-Proof.
-  intros W WS CI H. pose proof CI as (I & R & S).
-  pose proof (restore_repaired_inv _ _ _ _ _ _ _ W WS I H) as I'.
-  destruct (restore_repaired_shape _ _ _ _ _ _ W I H) as [[-> Hb]|(addrs' & E)].
-  - apply commit_same; auto.
-  - eapply commit_after_add; eauto.
-Qed.
-
-Lemma pba_activate_inv c st s sid k dp obs : wf c -> wfst c st -> CInv c st s ->
-  CInv c st (fst (pba_activate repaired c s sid k dp obs)).
-Proof.
-  intros W WS CI. pose proof CI as (I & R & S). unfold pba_activate. cbn [step].
-  destruct (blocks_of (cp_pool s) k) as [|b0 r0] eqn:B.
-  - destruct (do_alloc c (cp_pool s) k obs) as [p' o] eqn:D.
-    pose proof (do_alloc_inv c st (cp_pool s) k obs W WS I) as I'. rewrite D in I'. cbn [fst] in I'.
-    destruct (do_alloc_shape _ _ _ _ _ _ D) as [(b & addrs' & -> & E)|[-> Hno]].
-    + destruct dp; cbn [fst].
-      * eapply commit_after_add; eauto.
-      * unfold CInv, with_pool; cbn [cp_pool cp_rev]. split; [apply release_inv; auto|]. split; [exact R|].
-        eapply rs_ext; [|exact S]. intros k'. rewrite blocks_of_release. subst p'. rewrite blocks_of_add.
-        destruct (N.eqb_spec k' k) as [->|]; [rewrite B|]; reflexivity.
-    + destruct o as [nw b| | | |]; try (cbn [fst]; destruct s; exact CI).
-      exfalso. eapply Hno; reflexivity.
-  - cbn [fst]. apply commit_same; auto. rewrite B. simpl; auto.
-Qed.
-
-Lemma rollback_inv c st s p' mk : wf c -> CInv c st s -> Inv c st p' ->
-  (forall k b, In b (blocks_of (cp_pool s) k) -> In b (blocks_of p' k)) ->
-  (forall k, k <> mk -> blocks_of p' k = blocks_of (cp_pool s) k) ->
-  CInv c st {| cp_pool := release c p' mk;
-               cp_rev := fold_left (fun ri b => rev_remove ri (b_ip b) (b_start b)) (blocks_of p' mk) (cp_rev s);
-               cp_sess := cp_sess s; cp_pend := cp_pend s |}.
-Proof.
-  intros W (I & R & [S C]) I' Hgrow Hother. unfold CInv; cbn [cp_pool cp_rev].
-  split; [apply release_inv; auto|].
-  destruct (rev_remove_fold (blocks_of p' mk) (cp_rev s) R) as [R' M]. split; [exact R'|].
-  constructor.
-  - intros m Hm. apply M in Hm. destruct Hm as [Hm NK]. rewrite blocks_of_release.
-    destruct (N.eqb_spec (m_sub m) mk) as [E|E].
-    + exfalso. pose proof (S _ Hm) as Own. rewrite E in Own. apply (NK _ (Hgrow _ _ Own)). reflexivity.
-    + rewrite Hother by auto. auto.
-  - intros k' b' Hb'. rewrite blocks_of_release in Hb'. destruct (N.eqb_spec k' mk) as [E|NE]; [contradiction|].
-    pose proof Hb' as Hb2. rewrite Hother in Hb' by auto.
-    destruct (C _ _ Hb') as (m & Hm & Ms & Mb). exists m. split; [|auto]. apply M. split; [exact Hm|].
-    intros b0 Hb0 K. unfold rkey in K. rewrite Mb in K. inversion K. apply NE. eapply (i_excl _ _ _ I'); eauto.
-Qed.
-
 Lemma pk_repaired k : pk repaired k = k.
 Proof. reflexivity. Qed.
-
-(* events whose dataplane add outcome is known before the next event keep pool and reverse index in step *)
-Lemma cstep_inv c st s o : wf c -> wfst c st -> sync_op o = true -> CInv c st s ->
-  CInv c st (fst (cstep repaired c s o)).
-Proof.
-  intros W WS SY CI. pose proof CI as (I & R & S).
-  destruct o as [sid k dp obs|sid k obs|sid ok|sid k mk mb dp obs|sid k dl|sid mk mb bulk obs|mk mb|];
-    try discriminate SY; cbn [cstep]; rewrite ?pk_repaired.
-  - destruct (busy s sid); [exact CI|]. apply pba_activate_inv; auto.
-  - destruct (busy s sid); [exact CI|].
-    unfold restore; cbn [repaired v_validate v_rollback].
-    destruct (restore_repaired c (cp_pool s) mk mb true) as [p'|] eqn:H; [|apply pba_activate_inv; auto].
-    destruct dp; cbn [fst]; [eapply restore_commit_inv; eauto|].
-    pose proof (restore_repaired_inv _ _ _ _ _ _ _ W WS I H) as I'.
-    apply rollback_inv; auto.
-    + destruct (restore_repaired_shape _ _ _ _ _ _ W I H) as [[-> Hb]|(addrs' & ->)]; [auto|].
-      intros k0 b0 H0. rewrite blocks_of_add. destruct (N.eqb_spec k0 mk) as [->|]; [apply in_or_app|]; auto.
-    + destruct (restore_repaired_shape _ _ _ _ _ _ W I H) as [[-> Hb]|(addrs' & ->)]; [auto|].
-      intros k0 NE. rewrite blocks_of_add. destruct (N.eqb_spec k0 mk); [contradiction|reflexivity].
-  - destruct (negb (existsb (N.eqb sid) (cp_sess s)) && _); [exact CI|].
-    destruct (blocks_of (cp_pool s) k) as [|b0 r0] eqn:B; cbn [fst]; [exact CI|].
-    unfold CInv; cbn [cp_pool cp_rev]. split; [apply release_inv; auto|].
-    rewrite <- B. apply release_comp_inv with (st := st); auto.
-  - destruct (negb (bulk =? 0)).
-    { destruct (busy s sid); [exact CI|]. apply pba_activate_inv; auto. }
-    unfold restore; cbn [repaired v_validate].
-    destruct (restore_repaired c (cp_pool s) mk mb true) as [p'|] eqn:H; cbn [fst]; [|exact CI].
-    eapply restore_commit_inv; eauto.
-  - unfold restore; cbn [repaired v_validate].
-    destruct (restore_repaired c (cp_pool s) mk mb true) as [p'|] eqn:H; cbn [fst]; [|exact CI].
-    exact (restore_commit_inv c st s 0 mk mb p' W WS CI H).
-  - exact CI.
-Qed.
-
-Lemma crun_inv c st ops : wf c -> wfst c st -> forallb sync_op ops = true ->
-  forall s, CInv c st s -> CInv c st (crun repaired c s ops).
-Proof.
-  intros W WS. unfold crun. induction ops as [|o ops IH]; intros SY s CI; simpl; [exact CI|].
-  simpl in SY. apply andb_true_iff in SY. destruct SY as [S1 S2].
-  apply IH; auto. apply cstep_inv; auto.
-Qed.
-
-Lemma comp_init_inv c st p0 : Inv c st p0 -> (forall k, blocks_of p0 k = []) -> CInv c st (comp_init p0).
-Proof.
-  intros I E. unfold CInv, comp_init; cbn [cp_pool cp_rev]. split; [exact I|]. split.
-  - constructor; simpl; try (intros; contradiction); try constructor.
-    all: try (intros; contradiction).
-    intros (m & [] & _).
-  - constructor; simpl; [intros m []|]. intros k b H. rewrite E in H. contradiction.
-Qed.
 
 Lemma configure_empty v r p0 : configure v r = Some p0 -> forall k, blocks_of p0 k = [].
 Proof. unfold configure. destruct (c_bs (effective r) =? 0); [discriminate|]. intros H; inversion H. reflexivity. Qed.
 
 Lemma covers_spec b ip port : covers b ip port = true <-> b_ip b = ip /\ b_start b <= port /\ port <= b_end b.
 Proof. unfold covers. rewrite !andb_true_iff, N.eqb_eq, !N.leb_le. tauto. Qed.
-
-Section CompStatements.
-  Variable r : rawcfg.
-  Variable p0 : pool.
-  Variable ops : list cop.
-  Hypothesis Hr : wf_range r.
-  Hypothesis Hc : configure repaired r = Some p0.
-  Hypothesis Hsync : forallb sync_op ops = true.
-  Let c := effective r.
-  Let s := crun repaired c (comp_init p0) ops.
-
-  Lemma comp_reach : wf c /\ wfst c (map static (p_addrs p0)) /\ CInv c (map static (p_addrs p0)) s.
-  Proof.
-    destruct (configure_inv r p0 Hr Hc) as (W & WS & I0). split; [exact W|]. split; [exact WS|].
-    apply crun_inv; auto. apply comp_init_inv; auto. eapply configure_empty; eauto.
-  Qed.
-
-  Lemma reverse_lookup_exact ip port :
-    match rev_lookup (cp_rev s) ip port with
-    | Some m => In (m_blk m) (blocks_of (cp_pool s) (m_sub m)) /\ covers (m_blk m) ip port = true /\
-                forall k b, In b (blocks_of (cp_pool s) k) -> covers b ip port = true -> k = m_sub m /\ b = m_blk m
-    | None => forall k b, In b (blocks_of (cp_pool s) k) -> covers b ip port = false
-    end.
-  Proof.
-    destruct comp_reach as (W & WS & I & R & [S C]). unfold rev_lookup.
-    destruct (find _ (r_byip (cp_rev s))) as [m|] eqn:F.
-    - apply find_some in F. destruct F as [Hm Cm]. pose proof (S _ Hm) as Own. split; [exact Own|]. split; [exact Cm|].
-      intros k b Hb Cb. apply covers_spec in Cm. apply covers_spec in Cb.
-      destruct (i_blk _ _ _ I _ _ Hb) as (_ & _ & _ & S1 & E1 & _).
-      destruct (i_blk _ _ _ I _ _ Own) as (_ & _ & _ & S2 & E2 & _).
-      assert (ES : b_start b = b_start (m_blk m)).
-      { destruct (N.eq_dec (b_start b) (b_start (m_blk m))) as [E|NE]; [exact E|].
-        destruct (start_ok_disjoint c _ _ W S1 S2 NE); lia. }
-      assert (EI : b_ip b = b_ip (m_blk m)) by (destruct Cm, Cb; congruence).
-      split; [eapply (i_excl _ _ _ I); eauto|]. apply block_eq; congruence.
-    - intros k b Hb. destruct (covers b ip port) eqn:Cb; [|reflexivity]. exfalso.
-      destruct (C _ _ Hb) as (m & Hm & _ & Mb). pose proof (find_none _ _ F _ Hm) as N. simpl in N. congruence.
-  Qed.
-
-  (* the pool inside the component obeys the same four statements as the bare pool *)
-  Lemma comp_pool_props :
-    (forall k1 k2 b1 b2, k1 <> k2 -> In b1 (blocks_of (cp_pool s) k1) -> In b2 (blocks_of (cp_pool s) k2) ->
-       b_ip b1 = b_ip b2 -> b_end b1 < b_start b2 \/ b_end b2 < b_start b1) /\
-    (forall k b, In b (blocks_of (cp_pool s) k) ->
-       In (b_ip b) (flat_map expand (r_outside r)) /\ ~ In (b_ip b) (r_excluded r) /\
-       c_pstart c <= b_start b /\ (b_start b - c_pstart c) mod c_bs c = 0 /\
-       b_end b = b_start b + c_bs c - 1 /\ b_end b <= c_pend c) /\
-    (forall k, N.of_nat (length (blocks_of (cp_pool s) k)) <= c_max c) /\
-    (c_paired c = true -> forall k b1 b2, In b1 (blocks_of (cp_pool s) k) -> In b2 (blocks_of (cp_pool s) k) -> b_ip b1 = b_ip b2).
-  Proof.
-    destruct comp_reach as (W & WS & I & _). repeat split.
-    - apply (inv_disjoint _ _ _ W I).
-    - destruct (inv_block_ok _ _ _ W WS I _ _ H) as ((a & Ha & Eip & X) & _).
-      apply (in_map static) in Ha. rewrite (i_static _ _ _ I) in Ha.
-      destruct (configure_addr r p0 a Hc Ha) as [A1 _]. rewrite Eip in A1. exact A1.
-    - destruct (inv_block_ok _ _ _ W WS I _ _ H) as ((a & Ha & Eip & X) & _).
-      apply (in_map static) in Ha. rewrite (i_static _ _ _ I) in Ha.
-      destruct (configure_addr r p0 a Hc Ha) as [_ A2]. rewrite Eip in A2. auto.
-    - apply (inv_block_ok _ _ _ W WS I _ _ H).
-    - apply (inv_block_ok _ _ _ W WS I _ _ H).
-    - apply (inv_block_ok _ _ _ W WS I _ _ H).
-    - apply (inv_block_ok _ _ _ W WS I _ _ H).
-    - apply (i_limit _ _ _ I).
-    - intros P. apply (i_paired _ _ _ I P).
-  Qed.
-End CompStatements.
 
 (* the current first-free policy is one of the admissible ones *)
 Lemma literal_is_admissible c st p k b p' : wf c -> wfst c st -> Inv c st p ->
@@ -1287,7 +1052,7 @@ Qed.
 
 Lemma cstep_refines v c s o : exists pops, cp_pool (fst (cstep v c s o)) = run v c (cp_pool s) pops.
 Proof.
-  destruct o as [sid k dp obs|sid k obs|sid ok|sid k mk mb dp obs|sid k dl|sid mk mb bulk obs|mk mb|]; cbn [cstep].
+  destruct o as [sid k dp obs|sid k obs|sid ok|sid k mk mb dp obs|sid k dl|sid mk mb bulk obs|sid0 mk mb|]; cbn [cstep].
   - destruct (busy s sid); [exists []; reflexivity|]. apply pba_refines.
   - destruct (busy s sid); [exists []; reflexivity|].
     destruct (step v c (cp_pool s) (OGoa (pk v k) obs)) as [p' o] eqn:E.
@@ -1303,7 +1068,7 @@ Proof.
     destruct dp.
     + exists [ORestoreIfAbsent mk mb]. unfold run; cbn [fold_left]. rewrite <- RS. reflexivity.
     + exists [ORestoreIfAbsent mk mb; ORelease (pk v mk)]. unfold run. cbn [fold_left]. rewrite <- RS. reflexivity.
-  - destruct (negb (existsb (N.eqb sid) (cp_sess s)) && _); [exists []; reflexivity|].
+  - match goal with |- context [if ?b then _ else _] => destruct b end; [exists []; reflexivity|].
     destruct (blocks_of (cp_pool s) (pk v k)); [exists []; reflexivity|].
     exists [ORelease (pk v k)]. reflexivity.
   - destruct (negb (bulk =? 0)).
@@ -1419,14 +1184,40 @@ Proof.
   - apply (IH V2 i j); auto. lia.
 Qed.
 
-Lemma mdisjoint rs ps ops : (forall r, In r rs -> wf_range r) -> mconfigure repaired rs = Some ps ->
+Lemma pool_ok_wf r : pool_ok r = true -> wf_range r.
+Proof.
+  unfold pool_ok, wf_range, get_pstart, get_pend, parsed_range. intros H. apply andb_true_iff in H. destruct H as [H _].
+  destruct (r_range r) as [[a b]|]; simpl; [|unfold two16; lia].
+  apply andb_true_iff in H. destruct H as [H1 H2]. apply N.leb_le in H1. apply N.ltb_lt in H2.
+  assert (a <? two16 = true) by (apply N.ltb_lt; lia). rewrite H, (proj2 (N.ltb_lt _ _) H2). simpl. lia.
+Qed.
+Lemma pool_ok_bs r : pool_ok r = true -> get_bs r <> 0.
+Proof. unfold pool_ok. intros H. apply andb_true_iff in H. destruct H as [_ H]. apply negb_true_iff, N.eqb_neq in H. exact H. Qed.
+
+(* Validate accepted the pool: the range is well formed and ConfigurePool succeeds *)
+Lemma setup_ok r p0 : setup repaired r = Some p0 -> wf_range r /\ configure repaired r = Some p0.
+Proof.
+  unfold setup. cbn [repaired v_cfgcheck andb]. destruct (pool_ok r) eqn:P; simpl; [|discriminate].
+  intros H. split; [apply pool_ok_wf; exact P|exact H].
+Qed.
+(* and conversely ConfigurePool cannot panic on an accepted pool *)
+Lemma setup_total r : pool_ok r = true -> exists p0, setup repaired r = Some p0.
+Proof.
+  intros P. unfold setup. cbn [repaired v_cfgcheck andb]. rewrite P. simpl. unfold configure.
+  pose proof (pool_ok_bs r P) as B. cbn [effective c_bs]. destruct (N.eqb_spec (get_bs r) 0); [contradiction|]. eauto.
+Qed.
+
+Lemma mdisjoint rs ps ops : mconfigure repaired rs = Some ps ->
   forall i j k1 k2 b1 b2, (i <> j \/ k1 <> k2) ->
     In b1 (mblocks (mrun repaired ps ops) i k1) -> In b2 (mblocks (mrun repaired ps ops) j k2) ->
     b_ip b1 = b_ip b2 -> b_end b1 < b_start b2 \/ b_end b2 < b_start b1.
 Proof.
-  intros Hwf Hm i j k1 k2 b1 b2 NE H1 H2 Eip.
-  unfold mconfigure in Hm. cbn [repaired v_xpool] in Hm. simpl in Hm.
+  intros Hm i j k1 k2 b1 b2 NE H1 H2 Eip.
+  unfold mconfigure in Hm. cbn [repaired v_xpool v_cfgcheck] in Hm. simpl in Hm.
   destruct (pools_valid rs) eqn:V; [|discriminate]. simpl in Hm.
+  destruct (forallb pool_ok rs) eqn:PO; [|discriminate]. simpl in Hm.
+  assert (Hwf : forall r, In r rs -> wf_range r).
+  { intros r Hr. apply pool_ok_wf. rewrite forallb_forall in PO. auto. }
   unfold mblocks in H1, H2.
   destruct (nth_error (mrun repaired ps ops) i) as [[c1 q1]|] eqn:N1; [|contradiction].
   destruct (nth_error (mrun repaired ps ops) j) as [[c2 q2]|] eqn:N2; [|contradiction].
@@ -1562,8 +1353,8 @@ Section PendingSteps.
 
   (* replace pool and index, keep the pending list *)
   Lemma pinv_with s p' ri' : PInv c st f s -> Inv c st p' -> RI ri' -> RSP p' ri' (cp_pend s) ->
-    forall sess, PInv c st f {| cp_pool := p'; cp_rev := ri'; cp_sess := sess; cp_pend := cp_pend s |}.
-  Proof. intros (_ & _ & _ & ND & K) I R S sess. unfold PInv; cbn [cp_pool cp_rev cp_pend]. auto. Qed.
+    forall sess deg, PInv c st f {| cp_pool := p'; cp_rev := ri'; cp_sess := sess; cp_pend := cp_pend s; cp_deg := deg |}.
+  Proof. intros (_ & _ & _ & ND & K) I R S sess deg. unfold PInv; cbn [cp_pool cp_rev cp_pend]. auto. Qed.
 
   Lemma commit_after_add_p s p' k b sid addrs' : PInv c st f s -> Inv c st p' ->
     p' = add_block (cp_pool s) k b addrs' -> PInv c st f (commit_mapping repaired s p' sid k b).
@@ -1623,12 +1414,12 @@ Section PendingSteps.
   Qed.
 
   (* shrink the pending list of a state *)
-  Lemma pinv_shrink p ri sess pend sid : Inv c st p -> RI ri -> RSP p ri pend ->
+  Lemma pinv_shrink p ri sess deg pend sid : Inv c st p -> RI ri -> RSP p ri pend ->
     NoDup (map pend_sid pend) -> (forall e, In e pend -> snd (fst e) = f (pend_sid e)) ->
     (forall k b, In (sid, k, b) pend -> In b (blocks_of p k) ->
        exists m, In m (r_byip ri) /\ m_sub m = k /\ m_blk m = b) ->
     PInv c st f {| cp_pool := p; cp_rev := ri; cp_sess := sess;
-                   cp_pend := filter (fun e => negb (pend_sid e =? sid)) pend |}.
+                   cp_pend := filter (fun e => negb (pend_sid e =? sid)) pend; cp_deg := deg |}.
   Proof.
     intros I R S ND K Hd. destruct (filter_sid_facts pend sid) as (Hi & Hn & Hx).
     unfold PInv; cbn [cp_pool cp_rev cp_pend]. split; [exact I|]. split; [exact R|]. split; [|split].
@@ -1647,7 +1438,7 @@ Section PendingSteps.
   Lemma cstep_p s o : keyed f o = true -> PInv c st f s -> PInv c st f (fst (cstep repaired c s o)).
   Proof.
     intros KY PI. pose proof PI as (I & R & S & ND & K).
-    destruct o as [sid k dp obs|sid k obs|sid ok|sid k mk mb dp obs|sid k dl|sid mk mb bulk obs|mk mb|];
+    destruct o as [sid k dp obs|sid k obs|sid ok|sid k mk mb dp obs|sid k dl|sid mk mb bulk obs|sid0 mk mb|];
       cbn [cstep]; rewrite ?pk_repaired.
     - destruct (busy s sid); [exact PI|]. apply pba_p; auto.
     - (* activation whose add stays in flight *)
@@ -1713,8 +1504,8 @@ Section PendingSteps.
         intros k0 NE. rewrite blocks_of_add. destruct (N.eqb_spec k0 mk); [contradiction|reflexivity].
       + apply (pinv_with s _ _ PI); auto. apply release_inv; auto.
     - (* release; cancels an activation in flight *)
-      simpl in KY. apply N.eqb_eq in KY. cbn [repaired v_late andb].
-      destruct (negb (existsb (N.eqb sid) (cp_sess s)) && negb (existsb (fun e => pend_sid e =? sid) (cp_pend s))); [exact PI|].
+      simpl in KY. apply N.eqb_eq in KY. cbn [repaired v_late v_degrel andb].
+      match goal with |- context [if ?b then _ else _] => destruct b end; [cbn [fst]; destruct s; exact PI|].
       assert (KEY : forall k1 b1, In (sid, k1, b1) (cp_pend s) -> k1 = k).
       { intros k1 b1 Hin. specialize (K _ Hin). unfold pend_sid in K; simpl in K. congruence. }
       destruct (blocks_of (cp_pool s) k) as [|b0 r0] eqn:B; cbn [fst].
@@ -1730,7 +1521,7 @@ Section PendingSteps.
       eapply restore_commit_p; eauto.
     - unfold restore; cbn [repaired v_validate].
       destruct (restore_repaired c (cp_pool s) mk mb true) as [p'|] eqn:H; cbn [fst]; [|exact PI].
-      exact (restore_commit_p s 0 mk mb p' PI H).
+      pose proof (restore_commit_p s 0 mk mb p' PI H) as Q. exact Q.
     - exact PI.
   Qed.
 
@@ -1743,8 +1534,10 @@ End PendingSteps.
 
 Lemma comp_init_p c st f p0 : Inv c st p0 -> (forall k, blocks_of p0 k = []) -> PInv c st f (comp_init p0).
 Proof.
-  intros I E. destruct (comp_init_inv c st p0 I E) as (_ & R & _).
-  unfold PInv, comp_init; cbn [cp_pool cp_rev cp_pend]. split; [exact I|]. split; [exact R|]. split; [|split].
+  intros I E. unfold PInv, comp_init; cbn [cp_pool cp_rev cp_pend]. split; [exact I|]. split; [|split; [|split]].
+  - constructor; simpl; try (intros; contradiction); try constructor.
+    all: try (intros; contradiction).
+    intros (m & [] & _).
   - constructor; [simpl; intros m []|]. intros k b H. rewrite E in H. contradiction.
   - constructor.
   - intros e [].
@@ -1791,3 +1584,138 @@ Proof.
   cbv zeta in E. fold s in E. rewrite HL in E. destruct (covers b ip port) eqn:Cb; [|reflexivity].
   destruct (E _ _ Hb Cb) as (sid & Hin). rewrite HP in Hin. contradiction.
 Qed.
+
+(* ====================================================================== statements over validated configurations *)
+(* [setup repaired r = Some p0]: Config.Validate accepted the pool and ConfigurePool built p0.  This single hypothesis
+   replaces the former pair [wf_range r], [configure repaired r = Some p0]. *)
+Section SetupStatements.
+  Variable r : rawcfg.
+  Variable p0 : pool.
+  Hypothesis Hs : setup repaired r = Some p0.
+  Let c := effective r.
+
+  Lemma s_disjoint ops k1 k2 b1 b2 : k1 <> k2 ->
+    In b1 (blocks_of (run repaired c p0 ops) k1) -> In b2 (blocks_of (run repaired c p0 ops) k2) ->
+    b_ip b1 = b_ip b2 -> b_end b1 < b_start b2 \/ b_end b2 < b_start b1.
+  Proof. destruct (setup_ok r p0 Hs) as [Hr Hc]. exact (disjoint_all r p0 ops Hr Hc k1 k2 b1 b2). Qed.
+
+  Lemma s_in_range ops k b : In b (blocks_of (run repaired c p0 ops) k) ->
+    In (b_ip b) (flat_map expand (r_outside r)) /\ ~ In (b_ip b) (r_excluded r) /\
+    c_pstart c <= b_start b /\ (b_start b - c_pstart c) mod c_bs c = 0 /\
+    b_end b = b_start b + c_bs c - 1 /\ b_end b <= c_pend c.
+  Proof. destruct (setup_ok r p0 Hs) as [Hr Hc]. exact (in_range_all r p0 ops Hr Hc k b). Qed.
+
+  Lemma s_limit ops k : N.of_nat (length (blocks_of (run repaired c p0 ops) k)) <= c_max c.
+  Proof. destruct (setup_ok r p0 Hs) as [Hr Hc]. exact (limit_all r p0 ops Hr Hc k). Qed.
+
+  Lemma s_paired ops k b1 b2 : c_paired c = true ->
+    In b1 (blocks_of (run repaired c p0 ops) k) -> In b2 (blocks_of (run repaired c p0 ops) k) -> b_ip b1 = b_ip b2.
+  Proof. destruct (setup_ok r p0 Hs) as [Hr Hc]. exact (paired_all r p0 ops Hr Hc k b1 b2). Qed.
+
+  Lemma s_release_frees_all ops k :
+    let p := run repaired c p0 ops in
+    let p' := fst (step repaired c p (ORelease k)) in
+    blocks_of p' k = [] /\
+    forall b, In b (blocks_of p k) ->
+      (forall k', ~ In b (blocks_of p' k')) /\
+      (forall k', limit_reached c p' k' = false ->
+                  (c_paired c = true -> forall b', In b' (blocks_of p' k') -> b_ip b' = b_ip b) ->
+                  exists p'', alloc_obs c p' k' b = Some p'').
+  Proof. destruct (setup_ok r p0 Hs) as [Hr Hc]. exact (release_frees_all r p0 ops k Hr Hc). Qed.
+
+  Lemma s_first_free ops k b p' :
+    alloc_literal c (run repaired c p0 ops) k = inr (b, p') -> alloc_obs c (run repaired c p0 ops) k b = Some p'.
+  Proof. destruct (setup_ok r p0 Hs) as [Hr Hc]. exact (first_free_admissible r p0 ops k b p' Hr Hc). Qed.
+
+  Lemma s_lookup_exact f ops ip port : forallb (keyed f) ops = true ->
+    match rev_lookup (cp_rev (crun repaired c (comp_init p0) ops)) ip port with
+    | Some m => In (m_blk m) (blocks_of (cp_pool (crun repaired c (comp_init p0) ops)) (m_sub m)) /\
+                covers (m_blk m) ip port = true /\
+                forall k b, In b (blocks_of (cp_pool (crun repaired c (comp_init p0) ops)) k) ->
+                            covers b ip port = true -> k = m_sub m /\ b = m_blk m
+    | None => forall k b, In b (blocks_of (cp_pool (crun repaired c (comp_init p0) ops)) k) ->
+                          covers b ip port = true ->
+                          exists sid, In (sid, k, b) (cp_pend (crun repaired c (comp_init p0) ops))
+    end.
+  Proof. intros K. destruct (setup_ok r p0 Hs) as [Hr Hc]. exact (reverse_lookup_exact_all r p0 f ops ip port Hr Hc K). Qed.
+
+  Lemma s_lookup_quiescent f ops ip port : forallb (keyed f) ops = true ->
+    cp_pend (crun repaired c (comp_init p0) ops) = [] ->
+    rev_lookup (cp_rev (crun repaired c (comp_init p0) ops)) ip port = None ->
+    forall k b, In b (blocks_of (cp_pool (crun repaired c (comp_init p0) ops)) k) -> covers b ip port = false.
+  Proof. intros K. destruct (setup_ok r p0 Hs) as [Hr Hc]. exact (reverse_lookup_exact_quiescent r p0 f ops ip port Hr Hc K). Qed.
+
+  Lemma s_comp_pool_props ops :
+    let s := crun repaired c (comp_init p0) ops in
+    (forall k1 k2 b1 b2, k1 <> k2 -> In b1 (blocks_of (cp_pool s) k1) -> In b2 (blocks_of (cp_pool s) k2) ->
+       b_ip b1 = b_ip b2 -> b_end b1 < b_start b2 \/ b_end b2 < b_start b1) /\
+    (forall k b, In b (blocks_of (cp_pool s) k) ->
+       In (b_ip b) (flat_map expand (r_outside r)) /\ ~ In (b_ip b) (r_excluded r) /\
+       c_pstart c <= b_start b /\ (b_start b - c_pstart c) mod c_bs c = 0 /\
+       b_end b = b_start b + c_bs c - 1 /\ b_end b <= c_pend c) /\
+    (forall k, N.of_nat (length (blocks_of (cp_pool s) k)) <= c_max c) /\
+    (c_paired c = true -> forall k b1 b2, In b1 (blocks_of (cp_pool s) k) -> In b2 (blocks_of (cp_pool s) k) -> b_ip b1 = b_ip b2).
+  Proof. destruct (setup_ok r p0 Hs) as [Hr Hc]. exact (comp_pool_props_all r p0 ops Hr Hc). Qed.
+
+  (* ---- releasing a subscriber at component level ---- *)
+  Lemma existsb_sess_del sid l : existsb (N.eqb sid) (sess_del sid l) = false.
+  Proof.
+    unfold sess_del. induction l as [|x l IH]; simpl; [reflexivity|].
+    destruct (N.eqb_spec x sid) as [E|E]; simpl; [exact IH|].
+    rewrite IH. destruct (N.eqb_spec sid x); [congruence|reflexivity].
+  Qed.
+
+  (* A release event for a session the component knows -- committed, with its add in flight, or preserved by the
+     degraded restore -- leaves the session's subscriber without blocks and without reverse entries, forgets the
+     session, and every block it held can be granted again. *)
+  Lemma s_comp_release_frees f ops sid dl : forallb (keyed f) ops = true ->
+    let s := crun repaired c (comp_init p0) ops in
+    let k := f sid in
+    existsb (N.eqb sid) (cp_sess s) || existsb (fun e => pend_sid e =? sid) (cp_pend s)
+      || existsb (N.eqb sid) (cp_deg s) = true ->
+    let s' := fst (cstep repaired c s (CRelease sid k dl)) in
+    blocks_of (cp_pool s') k = [] /\
+    (forall m, In m (r_byip (cp_rev s')) -> m_sub m <> k) /\
+    existsb (N.eqb sid) (cp_sess s') = false /\
+    existsb (fun e => pend_sid e =? sid) (cp_pend s') = false /\
+    existsb (N.eqb sid) (cp_deg s') = false /\
+    forall b, In b (blocks_of (cp_pool s) k) ->
+      forall k', limit_reached c (cp_pool s') k' = false ->
+                 (c_paired c = true -> forall b', In b' (blocks_of (cp_pool s') k') -> b_ip b' = b_ip b) ->
+                 exists p'', alloc_obs c (cp_pool s') k' b = Some p''.
+  Proof.
+    intros KY s k KN s'. destruct (setup_ok r p0 Hs) as [Hr Hc].
+    destruct (configure_inv r p0 Hr Hc) as (W & WS & I0). fold c in W, WS, I0.
+    assert (PI : PInv c (map static (p_addrs p0)) f s).
+    { apply crun_p; auto. apply comp_init_p; auto. eapply configure_empty; eauto. }
+    assert (PI' : PInv c (map static (p_addrs p0)) f s').
+    { apply cstep_p; auto. simpl. apply N.eqb_refl. }
+    pose proof PI as (I & _). destruct PI' as (_ & _ & [S' _] & _).
+    assert (SH : s' = fst (cstep repaired c s (CRelease sid k dl))) by reflexivity.
+    cbn [cstep] in SH. rewrite pk_repaired in SH. cbn [repaired v_late v_degrel andb] in SH.
+    assert (CND : negb (existsb (N.eqb sid) (cp_sess s)) && negb (existsb (fun e => pend_sid e =? sid) (cp_pend s))
+                  && negb (existsb (N.eqb sid) (cp_deg s)) = false).
+    { destruct (existsb (N.eqb sid) (cp_sess s)); [reflexivity|].
+      destruct (existsb (fun e => pend_sid e =? sid) (cp_pend s)); [reflexivity|].
+      simpl in KN. rewrite KN. reflexivity. }
+    rewrite CND in SH.
+    assert (B0 : blocks_of (cp_pool s') k = []).
+    { rewrite SH. destruct (blocks_of (cp_pool s) k) eqn:B; cbn [fst cp_pool]; [exact B|].
+      rewrite blocks_of_release, N.eqb_refl. reflexivity. }
+    split; [exact B0|]. split.
+    { intros m Hm E. specialize (S' _ Hm). rewrite E, B0 in S'. contradiction. }
+    assert (F1 : existsb (fun e : N * N * block => pend_sid e =? sid)
+                   (filter (fun e => negb (pend_sid e =? sid)) (cp_pend s)) = false).
+    { apply not_true_is_false. intros T. apply existsb_exists in T. destruct T as (x & Hx & Ex).
+      apply filter_In in Hx. destruct Hx as [_ Hx]. rewrite Ex in Hx. discriminate. }
+    split; [|split; [|split]].
+    - rewrite SH. destruct (blocks_of (cp_pool s) k); cbn [fst cp_sess]; apply existsb_sess_del.
+    - rewrite SH. destruct (blocks_of (cp_pool s) k); cbn [fst cp_pend]; exact F1.
+    - rewrite SH. destruct (blocks_of (cp_pool s) k); cbn [fst cp_deg]; apply existsb_sess_del.
+    - intros b Hb k' L P.
+      assert (EP : cp_pool s' = release c (cp_pool s) k).
+      { rewrite SH. destruct (blocks_of (cp_pool s) k) eqn:B; cbn [fst cp_pool]; [contradiction|reflexivity]. }
+      rewrite EP in *. destruct (alloc_obs c (release c (cp_pool s) k) k' b) eqn:A; [eauto|].
+      exfalso. eapply release_reuse; eauto.
+  Qed.
+End SetupStatements.
